@@ -42,6 +42,10 @@ class SymCoverage(Coverage):
     def filtered(self, fn):
         if self._identity:
             return self
+        if fn is Coverage.quality_filter:
+            # symbolic counts stand for the observations that passed the quality filter
+            # (that filter is decided on symbolic qualities in C15/quality)
+            return SymCoverage(self.gene, self.profile, self._sc, self._tot, self.sam, False)
         # real filtering semantics on symbolic counts: keep iff fn(...) is truthy
         new = SymCoverage(self.gene, self.profile, {}, self._tot, self.sam, False)
         for (pos, op), c in self._sc.items():
